@@ -24,7 +24,7 @@ def units(tier):
     return primitives.units(SEGP) + useractions.units(UA_ALL, SEG) + primitives.invert_units(SEG)
 
 
-def bounded(tier, seed):
+def _bounded(tier, seed):
     from pyvc.native_bridge import bounded_harness, bounded_paint
     return [bounded_harness(tier, "C07,C01", "paint-strokes", "paint/erase strokes, node/edge edits, undo/redo on small label videos; oracles: labels<->nodes, "
                             "array exactly as painted, undo restores bit for bit", seed, focus="paint,undo", segonly=True),
@@ -34,3 +34,8 @@ def bounded(tier, seed):
 def witness(label, failure, seed):
     from pyvc.native_bridge import tracks_witness
     return tracks_witness("C07", label, failure, seed, extra=["--segonly"])
+
+
+def bounded(tier, seed):
+    from ._common import model_checks
+    return _bounded(tier, seed) + model_checks(tier, "networkx,numpy", shape=True, seed=seed)
